@@ -108,6 +108,26 @@ def case_vcf(run, i):
                 C.do_call(seg, arrays[-1], "threshold", 2, purity)
             except Exception:
                 pass
+        # a filter that merges segments before the BAF is attached (ci / sem), and single-chromosome pieces of the table against the whole VCF
+        try:
+            lg = np.asarray(seg["log2"], float)
+            wide = rng.random(len(seg)) < 0.7
+            seg_ci = seg.add_columns(ci_lo=np.where(wide, lg - 3.0, lg - 0.01), ci_hi=np.where(wide, lg + 3.0, lg + 0.01), sem=np.where(wide, 2.0, 0.001))
+            C.do_call(seg_ci, arrays[-1], "threshold", 2, None, filters=[["ci"], ["sem"]][i % 2])
+        except Exception:
+            pass
+        pieces = [sub for _c, sub in seg.by_chromosome()]
+        for sub in pieces[:: max(1, len(pieces) - 1)]:
+            try:
+                arrays[-1].baf_by_ranges(sub)
+                C.do_call(sub, arrays[-1], "threshold", 2, None)
+            except Exception:
+                pass
+        if len(seg) > 1:
+            try:
+                arrays[-1].baf_by_ranges(seg[int(rng.integers(0, len(seg))):][:1])      # a single row
+            except Exception:
+                pass
     if i % 8 == 0 and truth["records"]:
         # `cnvkit.py call -v VCF [-i ID] [-n ID] [--min-variant-depth N] [-z F]`: the selectors and filters must reach load_het_snps unchanged
         import cnvlib.commands as K
